@@ -742,9 +742,9 @@ pub fn main(mode: Mode) -> i32 {
             ctx.run_regressions(&p);
             let scripts = small_scripts(ctx.thorough());
             let bound = if ctx.thorough() { 3 } else { 2 };
-            let cap = ctx.n(40_000, 2_000_000) as u64;
+            let cap = ctx.n(150_000, 2_000_000) as u64;
             run_exhaustive(&mut ctx, &check, &pool, "exhaustive", &scripts, bound, cap);
-            let n = ctx.n(20_000, 2_000_000);
+            let n = ctx.n(60_000, 2_000_000);
             ctx.run_search(&p, n, 400, 300);
             for c in ["two-concurrent-requests", "stw-vs-park-slow", "stw-vs-unpark-slow", "stw-vs-safepoint-poll", "stw-vs-thread-start", "stw-vs-thread-exit"] {
                 let total = ctx.classes.get(&format!("random/{c}")).copied().unwrap_or(0) + ctx.classes.get(&format!("exhaustive/{c}")).copied().unwrap_or(0);
